@@ -159,6 +159,8 @@ class FunctionExtractor:
         self.cpp_rel = cpp_rel
         self.qual = qualname
         self.rules = []
+        self.nonstatic_locals = set()
+        self._skip = False
         self.nloops = 0
         self.is_ctor = False
         self.is_dtor = False
@@ -338,7 +340,10 @@ class FunctionExtractor:
         if k not in PLAIN:
             raise ExtractionError('%s: unsupported AST node %s in %s' % (self.cpp_rel, k, self.qual))
         if k == 'VarDecl':
+            self._skip = False
             self.vardecl(n)
+            if self._skip:
+                return
         for c in n.get('inner', []) or []:
             self.walk(c)
 
@@ -350,8 +355,42 @@ class FunctionExtractor:
             b = _off(n['range']['begin'])
             if self.src[b:b + 6] != 'static':
                 raise ExtractionError('static local without leading static token')
-            self.ed.replace(b, b + 6, '      ')
-            self.rules.append('R3')
+            # does the initialiser depend on a parameter or on a non-static local?  Then once-only initialisation is
+            # observable (the value of the FIRST call sticks) and must be kept: R3b.  Otherwise R3 (drop `static`).
+            dep = []
+
+            def scan(x):
+                if x.get('kind') == 'DeclRefExpr':
+                    rd = x.get('referencedDecl', {})
+                    if rd.get('kind') == 'ParmVarDecl':
+                        dep.append(rd.get('name'))
+                    elif rd.get('kind') == 'VarDecl' and rd.get('id') in self.nonstatic_locals:
+                        dep.append(rd.get('name'))
+                for c in x.get('inner', []) or []:
+                    scan(c)
+            for c in n.get('inner', []) or []:
+                scan(c)
+            if not dep:
+                self.ed.replace(b, b + 6, '      ')
+                self.rules.append('R3')
+            else:
+                e = _end(n['range']['end'])
+                nameoff = _off(n['loc'])
+                name = n['name']
+                ty = self.src[b + 6:nameoff].strip()
+                ty = re.sub(r'\bconst\b', '', ty).strip()
+                init = [c for c in n.get('inner', []) if c.get('kind') not in (None,)]
+                if not init:
+                    raise ExtractionError('static local without initialiser depends on a parameter?')
+                ie = init[-1]
+                itxt = self.src[_off(ie['range']['begin']):_end(ie['range']['end'])]
+                self.ed.replace(b, e, 'static %s %s; static int %s__verif_init; if (!%s__verif_init) { %s = (%s); %s__verif_init = 1; }'
+                                % (ty, name, name, name, name, itxt, name))
+                self.rules.append('R3b')
+                self._skip = True
+                return
+        elif n.get('id'):
+            self.nonstatic_locals.add(n['id'])
         t = n.get('type', {}).get('qualType', '')
         if 'distribution' in t:
             raise ExtractionError('sampler object (R9) not enabled for ' + self.qual)
@@ -638,6 +677,46 @@ def references(cpp_rel, qualname):
             walk(c)
     walk(d)
     return out
+
+
+def callees_in_file(cpp_rel, qualname):
+    """names of functions called from qualname that are DEFINED (with a body) in the same file"""
+    fx = FunctionExtractor(cpp_rel, qualname)
+    d = fx.find_decl()
+    names = []
+
+    def walk(n):
+        if n.get('kind') == 'DeclRefExpr':
+            rd = n.get('referencedDecl', {})
+            if rd.get('kind') == 'FunctionDecl' and rd.get('name') and rd['name'] not in names:
+                names.append(rd['name'])
+        for c in n.get('inner', []) or []:
+            walk(c)
+    walk(d)
+    out = []
+    for nm in names:
+        try:
+            FunctionExtractor(cpp_rel, nm).find_decl()
+            out.append(nm)
+        except ExtractionError:
+            pass
+    return out
+
+
+def closure_order(cpp_rel, root, skip=()):
+    """root and every helper it (transitively) calls that is defined in the same file, callees first"""
+    order = []
+    seen = set(skip)
+
+    def visit(fn):
+        if fn in seen:
+            return
+        seen.add(fn)
+        for c in callees_in_file(cpp_rel, fn):
+            visit(c)
+        order.append(fn)
+    visit(root)
+    return order
 
 
 def extract_template_macro():
